@@ -263,6 +263,37 @@ partial def loop (h : IO.FS.Stream) (d : DS) : IO Unit := do
     let may := match b.may with | some r => r.name | none => "-"
     IO.println s!"E rfc={showVerdict a.verdict}@{a.at_} len={showVerdict b.verdict}@{b.at_} may={may} exp=[{String.intercalate ";" (b.evs.map showEv)}]"
     loop h d
+  | "B" :: side :: spec :: _ =>
+    -- a batch of messages written back to back (the executor mode of the C line does not enter the model: delivery order
+    -- and content do not depend on when the jobs run)
+    if d.mode != "rt" then IO.println "bad-op"; loop h d else
+    let cli := side == "c"
+    let (gs, gr) := if cli then (d.gc, d.g) else (d.g, d.gc)
+    let (ss, sr) := if cli then (d.c, d.sv) else (d.sv, d.c)
+    let msgs := (splitNE spec ";").filterMap fun m => match m.splitOn "/" with
+      | [t, p] => some (opType t, bytesOf p)
+      | _ => none
+    let defls := (splitNE (f "defl") "|").map bytesOf
+    let base := mkEnv ws "keys" ss.k.nwrites
+    -- the i-th compressed message gets the i-th observed deflate output
+    let (k1, wire, werr, _) := msgs.foldl (fun (acc : K × List UInt8 × Nat × Nat) (m : Nat × List UInt8) =>
+      let (k, wire, werr, ci) := acc
+      let isC := gs.writeCompression && (m.1 == 1 || m.1 == 2)
+      let env : Env := { base with deflate := fun _ => defls.getD ci [] }
+      let (k', w) := appWrite gs env k m.1 m.2
+      match w with
+      | .ok wr => (k', wire ++ wr.foldr (· ++ ·) [], werr, if isC then ci + 1 else ci)
+      | .error er => (k', wire, if werr == 0 then er.code else werr, if isC then ci + 1 else ci)) (ss.k, [], 0, 0)
+    let ss1 : S := { ss with k := k1 }
+    let cuts := (splitNE (f "cuts") ",").map String.toNat!
+    let fr := feed gr (mkEnv ws "bkeys" sr.k.nwrites) sr (cutUp wire cuts) []
+    let back := writesOf fr.acts
+    let pb := if back.isEmpty then (⟨ss1, [], none⟩ : PR) else parse gs (mkEnv ws "rkeys" ss1.k.nwrites) ss1 back
+    IO.println s!"B werr={werr} wire={short wire} recv={showActs fr.acts} rerr={errStr fr.err} back={showActs pb.acts} berr={errStr pb.err} rcache={fr.s.cache.length} rmsglen={msgLen fr.s}"
+    let down := pb.s.k.connClosed || fr.s.k.connClosed || fr.err.isSome || pb.err.isSome
+    let ss2 : S := { pb.s with k := { pb.s.k with connClosed := down } }
+    let sr1 : S := { fr.s with k := { fr.s.k with connClosed := down } }
+    if cli then loop h { d with c := ss2, sv := sr1 } else loop h { d with sv := ss2, c := sr1 }
   | "W" :: side :: typ :: sp :: _ =>
     if d.mode != "rt" then IO.println "bad-op"; loop h d else
     let cli := side == "c"
